@@ -3,6 +3,7 @@ package main
 import (
 	"fmt"
 	"go/types"
+	"math"
 	"strings"
 
 	"golang.org/x/tools/go/ssa"
@@ -508,6 +509,31 @@ func init() {
 	}
 	reg("context.WithTimeout context.WithCancel context.WithDeadline", ctxWith)
 	reg("context.WithoutCancel", func(c *Ctx, fn *ssa.Function, a []Value) Value { return a[0] })
+	// ---- clock: an arbitrary non-decreasing, non-negative instant (not part of the replay vector) ----
+	reg("github.com/synnaxlabs/x/telem.Now", func(c *Ctx, fn *ssa.Function, a []Value) Value {
+		n, _ := c.extra["clockN"].(int)
+		c.extra["clockN"] = n + 1
+		v := c.tb.Var(fmt.Sprintf("clk%d", n), BV(64))
+		c.assume(c.tb.Cmp(OpBvSle, c.tb.Const(0, 64), v))
+		if prev, ok := c.extra["clockPrev"].(*Term); ok {
+			c.assume(c.tb.Cmp(OpBvSle, prev, v))
+		}
+		c.extra["clockPrev"] = v
+		return v
+	})
+	// ---- math on concrete floats ----
+	fl1 := func(f func(float64) float64) intrinsic {
+		return func(c *Ctx, fn *ssa.Function, a []Value) Value {
+			x := a[0].(FloatV)
+			return FloatV{f(x.f), x.bits}
+		}
+	}
+	reg("math.Round", fl1(math.Round))
+	reg("math.Floor", fl1(math.Floor))
+	reg("math.Ceil", fl1(math.Ceil))
+	reg("math.Trunc", fl1(math.Trunc))
+	reg("math.Abs", fl1(math.Abs))
+	reg("math.Sqrt", fl1(math.Sqrt))
 	// ---- runtime / misc ----
 	reg("runtime.Gosched runtime.GC runtime.KeepAlive", func(c *Ctx, fn *ssa.Function, a []Value) Value { return nil })
 	reg("(*go.uber.org/zap.Logger).Check", func(c *Ctx, fn *ssa.Function, a []Value) Value { return PtrV{} })
